@@ -166,7 +166,7 @@ fn model_answers(model: &str, cases: &mut [Case], jobs: usize) -> Result<Vec<Str
     let strip = |l: &String| -> String { l.splitn(2, ' ').nth(1).unwrap_or("").to_string() };
     let lines: Vec<String> = cases.iter().enumerate().map(|(i, c)| c.model_line(i)).collect();
     let mut answers: Vec<String> = model::query_parallel(model, &lines, jobs)?.iter().map(strip).collect();
-    for _round in 0..6 {
+    for _round in 0..64 {
         let need: Vec<usize> = (0..cases.len()).filter(|&i| answers[i].contains("(need-regex")).collect();
         if need.is_empty() {
             break;
@@ -269,6 +269,7 @@ fn check(prop: &PropDef, args: &Args) -> i32 {
     let mut samples: Vec<J> = vec![];
     let mut unexplained = 0u64;
     let mut map_order_retries = 0u64;
+    let mut rerun_budget = 300_000u64;
     for (i, c) in cases.iter().enumerate() {
         for t in &c.tags {
             *tags.entry(t.to_string()).or_default() += 1;
@@ -295,7 +296,12 @@ fn check(prop: &PropDef, args: &Args) -> i32 {
             // order, the model in insertion order. The property leaves the order unspecified, so
             // the model's answer is admissible iff some iteration order of the implementation
             // produces it: re-run (each run draws fresh hash seeds).
-            for _ in 0..40 {
+            for _ in 0..2000 {
+                // (bounded overall, so that a genuinely broken macro cannot make the run crawl)
+                if rerun_budget == 0 {
+                    break;
+                }
+                rerun_budget -= 1;
                 if run::impl_answer(c) == model_ans[i] {
                     differs = false;
                     map_order_retries += 1;
